@@ -6,9 +6,15 @@
     returning class path denotes (back); an error outcome moves nothing (C19);
     a refund restores exactly (C06).
     REFUTED for native classes containing '/' (known finding D4): witness below.
-    NOT PROVED: the cross-chain statement "exactly one holder at any time" for
-    '/'-free classes; it is checked by the correspondence oracle after every
-    fifth step of every explored history. *)
+    OVER HISTORIES: see C04Hist.v (every history of one chain: vouchers only
+    against delivered packets, escrow released only to the claimant, escrow
+    accounting), C04HistCross.v (every history of the application network: every
+    refund is the refund of an own transfer, every delivery is backed by a
+    transfer on the source, a refunded key was never credited) and, when present,
+    C04HistSingle.v (two chains, '/'-free classes: never two user holders).
+    NOT PROVED: the cross-chain statement over routes of three and more chains;
+    it is checked by the correspondence oracle after every fifth step of every
+    explored history. *)
 From Tibc Require Import Base.Bytes Base.FMap Host.KeysFacts Packet.Types
   Apps.Path Apps.PathFacts Apps.Nft Apps.NftFacts.
 
